@@ -236,7 +236,10 @@ class Repo:
             cur = dict(base)
             assigned = set()
             undecided = None
+            defs = {}
             for e in p.effects:
+                if e.kind == 'store_attr' and isinstance(e.obj, ast.Name) and e.obj.id == 'self' and e.name not in ('pack', 'unpack'):
+                    defs[e.name] = e.raw if e.raw is not None else e.value   # in terms of the attributes it reads
                 if e.kind == 'store_attr' and isinstance(e.obj, ast.Name) and e.obj.id == 'self' and e.name in ('pack', 'unpack'):
                     v = e.value
                     if isinstance(v, ast.Attribute) and isinstance(v.value, ast.Name) and v.value.id == 'self':
@@ -256,10 +259,49 @@ class Repo:
                 for o in out:
                     if o['key'] == key:
                         o['guard_sets'].append(g)
+                        # keep the definitions every compile path of this strategy agrees on; when
+                        # they differ only in the arguments of the same constructor call, keep the
+                        # constructor with opaque arguments (it is still "a struct.Struct")
+                        for a_ in list(o['defs']):
+                            if a_ in defs and canon(defs[a_]) == canon(o['defs'][a_]):
+                                continue
+                            old, new = o['defs'][a_], defs.get(a_)
+                            if isinstance(old, ast.Call) and isinstance(new, ast.Call) and call_name(old) and call_name(old) == call_name(new):
+                                o['defs'][a_] = ast.Call(func=old.func, args=[ast.Name(id='<differs between compile paths>', ctx=ast.Load())], keywords=[])
+                            else:
+                                del o['defs'][a_]
                 continue
             seen.add(key)
-            out.append(dict(key=key, guards=g, guard_sets=[g], pack=cur['pack'], unpack=cur['unpack'], assigned=assigned))
+            out.append(dict(key=key, guards=g, guard_sets=[g], pack=cur['pack'], unpack=cur['unpack'], assigned=assigned, defs=defs))
+        # an attribute is a compile-time constant of the strategy only if nothing outside the
+        # declaration / compile phase ever stores it
+        late = self.runtime_stored_attrs(ci)
+        for o in out:
+            for a_ in list(o['defs']):
+                if a_ in late:
+                    del o['defs'][a_]
         return out
+
+    def runtime_stored_attrs(self, ci):
+        """attribute names some method other than __init__ / _compile / _compile_impl / init-time
+        helpers stores on self (anywhere in the class hierarchy)"""
+        out = set()
+        classes = set(self.mro(ci)) | set(self.subclasses(ci.name))
+        for c in classes:
+            for name, fi in c.methods.items():
+                if name in ('__init__', '_compile', '_compile_impl', '__new__') or name in self.absorbed:
+                    continue      # (an absorbed helper's statements live in its callers)
+                for n in ast.walk(fi.node):
+                    if isinstance(n, ast.Attribute) and isinstance(n.ctx, (ast.Store, ast.Del)) and isinstance(n.value, ast.Name) and n.value.id == 'self':
+                        out.add(n.attr)
+                    elif isinstance(n, ast.Call) and isinstance(n.func, ast.Name) and n.func.id == 'setattr' and n.args and isinstance(n.args[0], ast.Name) and n.args[0].id == 'self':
+                        out.add('*')
+        return out
+
+    def strategy_consts(self, strat, keep=()):
+        """``self.<attr>`` -> defining expression, for the attributes _compile computes on the
+        path that installs the strategy and that the caller does not name in ``keep``"""
+        return {'self.%s' % a: v for a, v in strat.get('defs', {}).items() if a not in keep}
 
     def field_classes(self):
         return self.subclasses('Field')
